@@ -172,7 +172,7 @@ theorem wakeLoop_ik {swf : State → Nat → Nat → Bool → State} (hn : N3 sw
 
 theorem unregNotify_ik {swf : State → Nat → Nat → Bool → State} {sn : State → Nat → State}
     (hn3 : N3 swf) (hn1 : N1 sn) (hswf : IQ3 swf) (hsn : IQ1 sn) (X : List Nat) {s : State} (h : NInv s)
-    (src name : Nat) (hq : name = 0 ∨ 100 ≤ src) : IK X s (unregNotify swf sn s src name) := by
+    (src name : Nat) (hq : name = 0 ∨ QSrc src name) : IK X s (unregNotify swf sn s src name) := by
   unfold unregNotify
   split
   · exact IK.refl X s
@@ -182,9 +182,11 @@ theorem unregNotify_ik {swf : State → Nat → Nat → Bool → State} {sn : St
       have hname : name = 0 := by
         rcases hq with hq | hq
         · exact hq
-        · apply h.n1 src name hq
-          rw [Tbl.find_eq_getD_of_some hfind]
-          exact h.wfN.find_ne_nil hfind
+        · exfalso
+          have hk := h.n1 src name hq.1 (by rw [Tbl.find_eq_getD_of_some hfind]; exact h.wfN.find_ne_nil hfind)
+          rcases hq.2 with e | e
+          · exact hk.1 e
+          · exact hk.2 e
       subst hname
       simp only [unregisterTargets_eq_purge]
       have h1 : NInv ({ ({ s with waitFor := (Tbl.purge s.alive s.waitFor src 0 list []).1 } : State) with
@@ -234,7 +236,7 @@ structure IQAll (fuel : Nat) : Prop where
   stp : IQ1 (stop fuel)
   cwa : IQ1 (cancelWaitingAll fuel)
   swf : IQ3 (stoppedWaitFor fuel)
-  ur : ∀ X s src name, NInv s → (name = 0 ∨ 100 ≤ src) → IK X s (unregister fuel s src name)
+  ur : ∀ X s src name, NInv s → (name = 0 ∨ QSrc src name) → IK X s (unregister fuel s src name)
   ua : IQ1 (unregisterAll fuel)
 
 theorem iqAll_zero : IQAll 0 where
@@ -318,11 +320,11 @@ theorem deleteThread_ik_succ {fuel : Nat} (ih : IQAll fuel) : IQ1 (deleteThread 
       have g3 : Gone (cancelEvents (notifyDelete (stopStep (cancelWaitingAll fuel)
           (s.setTh t fun th => { th with hasVM := false }) t th) t) t) t := g2
       have h4 := n.ur _ t nameDelete h3
-      have j4 := j3.trans (ih.ur X _ t nameDelete h3 (Or.inr ht))
-      have g4 := g3.of_q (q.ur [] _ t nameDelete h3 (Or.inr ht))
+      have j4 := j3.trans (ih.ur X _ t nameDelete h3 (Or.inr ⟨ht, Or.inl rfl⟩))
+      have g4 := g3.of_q (q.ur [] _ t nameDelete h3 (Or.inr ⟨ht, Or.inl rfl⟩))
       have h5 := n.ur _ t nameRemove h4
-      have j5 := j4.trans (ih.ur X _ t nameRemove h4 (Or.inr ht))
-      have g5 := g4.of_q (q.ur [] _ t nameRemove h4 (Or.inr ht))
+      have j5 := j4.trans (ih.ur X _ t nameRemove h4 (Or.inr ⟨ht, Or.inr rfl⟩))
+      have g5 := g4.of_q (q.ur [] _ t nameRemove h4 (Or.inr ⟨ht, Or.inr rfl⟩))
       have h6 := n.ua _ t h5
       have j6 := j5.trans (ih.ua X _ t h5)
       have g6 := g5.of_q (q.ua [] _ t h5)
